@@ -74,8 +74,8 @@ PROPS = {
         rule="split requests as C06 with mixed present/absent keys and awkward values, fragment replies released in seeded random orders and byte-level "
              "interleavings; oracle: merged reply equals the harness's own merge of what each node returned in this run; non-trivial = fragment replies "
              "arrived in an order different from request order",
-        quick=dict(budget_s=80, profiles=[P("C07", 350), P("C07perm", 0, enumerate=["perm:%d:%d:-1" % (sh, pm) for sh in (1, 2, 6) for pm in range([2, 6, 24, 120][sh % 4])])]),
-        thorough=dict(budget_s=1800, profiles=[P("C07", 12000),
+        quick=dict(budget_s=80, profiles=[P("C07", 350), P("C07", 120, "reuse"), P("C07perm", 0, enumerate=["perm:%d:%d:-1" % (sh, pm) for sh in (1, 2, 6) for pm in range([2, 6, 24, 120][sh % 4])])]),
+        thorough=dict(budget_s=1800, profiles=[P("C07", 12000), P("C07", 5000, "reuse"),
                       P("C07perm", 0, enumerate=["perm:%d:%d:-1" % (sh, pm) for sh in range(40) for pm in range([2, 6, 24, 120][sh % 4])]),
                       P("C07perm", 0, enumerate=["perm:%d:%d:%d" % (sh, pm, cut) for sh in range(0, 40, 7) for pm in range([2, 6, 24, 24][sh % 4]) for cut in range(0, 12)])]),
         reach=["c07_out_of_order_arrivals"],
@@ -86,8 +86,8 @@ PROPS = {
              "every single cut position and cut pairs of fixed pipelines, plus boundary-related cuts (variant aligned: on request boundaries, fixed distances around them, "
              "at the length of an earlier request into a later one; one read per chunk), with read buffers of 16 B..64 KiB; oracle: exactly the planned requests are "
              "recognised once each, in order, unaltered, and the connection is never closed or answered early; non-trivial = more than 3 proxy reads",
-        quick=dict(budget_s=80, profiles=[P("C08", 300), P("C08", 300, "aligned")]),
-        thorough=dict(budget_s=1800, profiles=[P("C08", 8000), P("C08", 12000, "aligned")] + [P("C08", 0, enumerate=["cut:%d:%d" % (pl, pos) for pl in range(12) for pos in range(0, 400)])]
+        quick=dict(budget_s=80, profiles=[P("C08", 300), P("C08", 300, "aligned"), P("C08", 40, "deep")]),
+        thorough=dict(budget_s=1800, profiles=[P("C08", 8000), P("C08", 12000, "aligned"), P("C08", 1500, "deep")] + [P("C08", 0, enumerate=["cut:%d:%d" % (pl, pos) for pl in range(12) for pos in range(0, 400)])]
                       + [P("C08", 0, enumerate=["cut:%d:%d:%d" % (pl, pos, d) for pl in range(3) for pos in range(0, 200, 3) for d in range(0, 64, 5)])]),
         reach=["ShortReads", "c08_chunks"],
     ),
@@ -186,8 +186,8 @@ PROPS = {
              "master meanwhile, comes back, and 20 fake seconds later 300 reads per master must reach it like every other replica; oracle: every replica that was "
              "healthy for the whole run served at least one of >=200 reads of its master (miss probability < 1e-35 under uniform choice), writes only "
              "at masters; non-trivial = more than 400 reads observed",
-        quick=dict(budget_s=90, profiles=[P("C20", 50), P("C20", 20, "banned"), P("C20", 60, "pattern"), P("C20", 25, "recover")]),
-        thorough=dict(budget_s=1200, profiles=[P("C20", 2000), P("C20", 600, "banned"), P("C20", 3000, "pattern"), P("C20", 1500, "recover")]),
+        quick=dict(budget_s=90, profiles=[P("C20", 50), P("C20", 20, "banned"), P("C20", 60, "pattern"), P("C20", 25, "recover"), P("C20", 25, "closed")]),
+        thorough=dict(budget_s=1200, profiles=[P("C20", 2000), P("C20", 600, "banned"), P("C20", 3000, "pattern"), P("C20", 1500, "recover"), P("C20", 1500, "closed")]),
         reach=["c20_reads", "c20_recover_dial_refused"],
     ),
     "C18": dict(
@@ -211,8 +211,8 @@ PROPS = {
              "8-512 byte send buffers and 16-257 byte read buffers (real partial writes and leftovers through the simulated kernel); non-trivial = "
              "wrap-around, growth, spill to the list or pool recycling happened (component) / blocked and short writes occurred (system); distinct = "
              "distinct operation traces (component) + distinct proxy-visible event-sequence hashes (system)",
-        quick=dict(budget_s=90, profiles=[P("C19", 150)], component=dict(checks=3000, shards=4)),
-        thorough=dict(budget_s=1500, profiles=[P("C19", 10000)], component=dict(checks=100000, shards=8, steps=120)),
+        quick=dict(budget_s=90, profiles=[P("C19", 150), P("C19", 100, "aligned")], component=dict(checks=3000, shards=4)),
+        thorough=dict(budget_s=1500, profiles=[P("C19", 10000), P("C19", 6000, "aligned")], component=dict(checks=100000, shards=8, steps=120)),
         reach=["EAGAINWrite", "ShortWrites", "ShortReads"],
     ),
 }
